@@ -189,6 +189,20 @@ def analyse(ctx, repo, prop, nb_ctx):
             ctx.check(sh == (Poly.const(1), Poly.const(1)), "LAYOUT", f"{tag}.pos.blockshape", "single rotation: 1x1 block", where, witness=str(sh))
 
 
+def _atoms_polys(v):
+    from ..interp import atoms_of
+    out = set()
+    def rec(x):
+        if isinstance(x, Num):
+            for a_ in x.p.atoms():
+                out.add(Poly.atom(a_))
+        elif T._is_pw(x):
+            for p in x.args:
+                rec(p.items[2])
+    rec(v)
+    return out
+
+
 def run(ctx, repo, tier):
     for nb_ctx in ("sym", "one"):
         for prop in GETTERS:
@@ -213,17 +227,28 @@ def run(ctx, repo, tier):
     pvol = interp.call_value(interp.getattr(pg, "get_all_position_volumes"), [], {}, None, None)
     vw = "molgri/space/fullgrid.py:FullGrid.get_total_volumes"
     ctx.instance("LAYOUT", 2)
-    ok = False
-    if isinstance(vol, ListV) and len(vol.items) == 1 and isinstance(vol.items[0], Loop) and len(vol.items[0].items) == 1 and \
-            isinstance(vol.items[0].items[0], Loop) and len(vol.items[0].items[0].items) == 1 and isinstance(vol.items[0].items[0].items[0], Elem):
-        lo, li_ = vol.items[0], vol.items[0].items[0]
-        ok = lo.extent == n_o * n_t and li_.extent == n_b
+    # flatten the loop nest of the volume list
+    nest = []
+    cur = vol.items if isinstance(vol, ListV) else []
+    while len(cur) == 1 and isinstance(cur[0], Loop):
+        nest.append(cur[0])
+        cur = cur[0].items
+    if isinstance(vol, ListV) and nest and len(cur) == 1 and isinstance(cur[0], Elem) and not contains_top(vol):
+        exts = [l.extent for l in nest]
+        last = nest[-1]
+        outer = Poly.const(1)
+        for e_ in exts[:-1]:
+            outer = outer * e_
+        ok = len(nest) >= 2 and last.extent == n_b and outer == n_o * n_t
+        # the inner (fastest) index must be the rotation, the outer ones the position in shell-major order
+        val = cur[0].value
+        uses_rot_inner = Poly.app("at", "vol_b", Poly.atom(last.idx)) in _atoms_polys(val)
+        ok = ok and uses_rot_inner
         ctx.check(ok, "LAYOUT", "C02.volumes.layout", "volumes are listed position-major, rotation-minor: index pos*n_b + rot (same cell "
                   "order as the matrices and the grid array)", vw, "for o_rot in pos_volumes: for b_rot in ori_volumes:",
-                  witness=f"outer extent {lo.extent.pretty()}, inner extent {li_.extent.pretty()}")
-        val = li_.items[0].value
-        # expected: posvol[p] * f^3 * vol_b[b]
-        if isinstance(pvol, Grid) and len(pvol.dims) == 1:
+                  witness=f"loop extents (major -> minor): {[e_.pretty() for e_ in exts]}; rotation index is the fastest: {uses_rot_inner}")
+        lo, li_ = nest[0], last
+        if ok and len(nest) == 2 and isinstance(pvol, Grid) and len(pvol.dims) == 1:
             pel = None
             d = interp.iter_desc(pvol)
             if d is not None:
@@ -243,7 +268,6 @@ def run(ctx, repo, tier):
                 ctx.ok("DEG", "C02.volumes.value", "6D volume = position-cell volume * f^3 * rotation-cell volume", vw, derived=vstr(val)[:200])
             else:
                 r_ = contains_top(val)
-                # diagnose the factor power
                 fp = set()
                 def collect(v):
                     if isinstance(v, Num):
@@ -256,6 +280,20 @@ def run(ctx, repo, tier):
                 (ctx.inconclusive if r_ else ctx.violate)("DEG", "C02.volumes.value", "6D volume is not position volume * f^3 * rotation "
                                                           "volume", vw, "all_volumes.append(o_rot*(self.factor**3)*b_rot)",
                                                           witness=r_ or f"factor powers found {sorted(map(str, fp))}; derived {vstr(val)[:250]}")
+        elif ok:
+            # other loop structure with the right order: check the factor power only
+            fp = set()
+            def collect2(v):
+                if isinstance(v, Num):
+                    for mm in v.p.terms:
+                        fp.add(dict(mm).get(("sym", "f"), Fraction(0)))
+                elif T._is_pw(v):
+                    for p in v.args:
+                        collect2(p.items[2])
+            collect2(val)
+            ctx.instance("DEG")
+            ctx.check(fp == {Fraction(3)}, "DEG", "C02.volumes.value", "6D volume carries the metric factor to the third power", vw,
+                      witness=f"factor powers {sorted(map(str, fp))}")
     else:
         r_ = contains_top(vol)
         ctx.inconclusive("LAYOUT", "C02.volumes.layout", "volume list not derived as a product loop", vw, witness=r_ or vstr(vol)[:300])
